@@ -45,6 +45,14 @@ def coq_stmt(s):
     if op == "guarded": return "SGuarded %d %s" % (s[1], coq_prog(s[2]))
     if op == "ignore": return "SIgnore %s" % ("true" if s[1] else "false")
     if op == "probe": return "SProbe"
+    if op == "bset": return "SBSet %d %d" % (s[1], s[2])
+    if op == "bget": return "SBGet %d %d" % (s[1], s[2])
+    if op == "breakif": return "SBreakIf %d" % s[1]
+    if op == "oif":
+        return "SOIf %d %s [%s] %s" % (s[1], coq_prog(s[2]), "; ".join("(%s, %d%%nat, %s)" % (coq_prog(cb), cr, coq_prog(b)) for cb, cr, b in s[3]),
+                                       "None" if s[4] is None else "(Some %s)" % coq_prog(s[4]))
+    if op == "owhile": return "SOWhile %s %d %d %s" % (coq_prog(s[1]), s[2], s[3], coq_prog(s[4]))
+    if op == "ofor": return "SOFor %d %s %d %s %s %s" % (s[1], zlit(s[2]), s[3], zlit(s[4]), "true" if s[5] else "false", coq_prog(s[6]))
     if op == "itelazy": return "SIteLazy %d %d %s %d %s %d" % (s[1], s[2], coq_prog(s[3]), s[4], coq_prog(s[5]), s[6])
     raise ValueError(op)
 
